@@ -113,21 +113,9 @@ public:
         {
           if (fmt[pos] == '}')
           {
+            // The first '}' after an unescaped '{' closes the replacement field. A following "}}"
+            // is an escaped brace of the literal text, not part of the field
             ++pos; // consume }
-            if (pos >= fmt.length())
-            {
-              break;
-            }
-
-            if (fmt[pos] == '}')
-            {
-              // this means first '}', was escaped ignore it
-              ++pos;
-              ++char_cnt;
-              continue;
-            }
-
-            // we found '{' match, we can break
             break;
           }
 
@@ -139,6 +127,9 @@ public:
         {
           found_named_arg = true;
         }
+
+        // pos is already at the character after the field, do not skip it
+        continue;
       }
       ++pos;
     }
